@@ -1248,4 +1248,186 @@ theorem Inv.init {C : Cfg} (w : WF C) : Inv C (St.init C) := by
       simp [St.init, List.getD_eq_getElem?_getD, hn]
     rw [this] at hk; cases hk
 
+
+/-! ### ICT-based control: the same argument (the invariant does not read timers or repair times) -/
+
+/-- flagging step of `check_sensors` -/
+def flagStepA (C : Cfg) (n : Nat) (cm : Comm) (s : St) (k : Nat) : St :=
+  let sc := C.secs.getD k default
+  if anyFailed s sc.lines then
+    let t := (if needSens C cm k then C.T else 0) + disconnectTime C cm k
+    let s' := { s with secConn := s.secConn.set k false,
+                       failedSecs := s.failedSecs.set n (addUnique (s.failedSecs.getD n []) k),
+                       timer := s.timer.set n (gr s.timer n + t) }
+    sc.lines.foldl (fun s l => { s with rem := s.rem.set l (gr s.rem l + disconnectTime C cm k) }) s'
+  else s
+
+theorem checkSensors_eq (C : Cfg) (s : St) (n : Nat) (cm : Comm) :
+    checkSensors C s n cm =
+      ((netOf C n).secs.filter (fun k => !gb s.secConn k)).foldl (recoStep C n)
+        (((netOf C n).secs.filter (fun k => gb s.secConn k)).foldl (flagStepA C n cm) s) := rfl
+
+theorem flagStepA_spec {C : Cfg} (w : WF C) (n : Nat) (hn : n < C.nets.length) (cm : Comm) (s : St) (h : Inv C s) (k : Nat)
+    (hk : k ∈ (netOf C n).secs) :
+    Inv C (flagStepA C n cm s k) ∧ (flagStepA C n cm s k).failed = s.failed ∧ (flagStepA C n cm s k).conn = s.conn ∧
+    (flagStepA C n cm s k).cbOpen = s.cbOpen ∧
+    (flagStepA C n cm s k).secConn = (if anyFailed s (secOf C k).lines then s.secConn.set k false else s.secConn) := by
+  unfold flagStepA
+  simp only
+  by_cases hf : anyFailed s (C.secs.getD k default).lines = true
+  · have hf' : anyFailed s (secOf C k).lines = true := hf
+    rw [if_pos hf, if_pos hf']
+    have hflen : n < s.failedSecs.length := by rw [h.sz.failedSecs]; exact hn
+    have h1 : Inv C { s with failedSecs := s.failedSecs.set n (addUnique (s.failedSecs.getD n []) k) } := h.addFailed n k hn hk
+    have hin : k ∈ ({ s with failedSecs := s.failedSecs.set n (addUnique (s.failedSecs.getD n []) k) } : St).failedSecs.getD n [] := by
+      show k ∈ (s.failedSecs.set n _).getD n []
+      rw [getD_set_self _ _ _ _ hflen]
+      unfold addUnique; split_ifs with hc
+      · simpa using hc
+      · simp
+    have h2 := Inv.flag w h1 n k hn hk hin
+    have rf := remFold_fields (disconnectTime C cm k) (C.secs.getD k default).lines
+      { s with secConn := s.secConn.set k false, failedSecs := s.failedSecs.set n (addUnique (s.failedSecs.getD n []) k),
+               timer := s.timer.set n (gr s.timer n + ((if needSens C cm k then C.T else 0) + disconnectTime C cm k)) }
+    simp only at rf
+    obtain ⟨r1, r2, r3, r4, r5, r6⟩ := rf
+    refine ⟨?_, r2, r1, r3, r4⟩
+    exact h2.congr r1 r2 r3 r4 r5 (by rw [r6])
+  · have hf' : ¬ anyFailed s (secOf C k).lines = true := hf
+    rw [if_neg hf, if_neg hf']
+    exact ⟨h, rfl, rfl, rfl, rfl⟩
+
+/-- the flagging fold, for any step function with the flagging specification -/
+theorem flagAllG {C : Cfg} (w : WF C) (n : Nat) (hn : n < C.nets.length) (f : St → Nat → St)
+    (hspec : ∀ (s : St) (k : Nat), Inv C s → k ∈ (netOf C n).secs →
+      Inv C (f s k) ∧ (f s k).failed = s.failed ∧ (f s k).conn = s.conn ∧ (f s k).cbOpen = s.cbOpen ∧
+      (f s k).secConn = (if anyFailed s (secOf C k).lines then s.secConn.set k false else s.secConn))
+    (ks : List Nat) (s : St) (h : Inv C s) (hks : ∀ k ∈ ks, k ∈ (netOf C n).secs) : FlagAll C ks s (ks.foldl f s) := by
+  induction ks generalizing s with
+  | nil => exact ⟨h, rfl, rfl, rfl, fun _ hj => hj, fun k hk => by cases hk⟩
+  | cons a as ih =>
+    simp only [List.foldl_cons]
+    have ha := hks a List.mem_cons_self
+    obtain ⟨i1, f1, c1, b1, sc1⟩ := hspec s a h ha
+    have r := ih (f s a) i1 (fun k hk => hks k (List.mem_cons_of_mem _ hk))
+    have mono1 : ∀ j, gb (f s a).secConn j = true → gb s.secConn j = true := by
+      intro j hj; rw [sc1] at hj
+      split_ifs at hj
+      · exact (gb_set_true_imp _ _ _ hj).1
+      · exact hj
+    have nf_eq : ∀ k, NoFailedIn C (f s a) k ↔ NoFailedIn C s k := by
+      intro k; unfold NoFailedIn; rw [f1]
+    refine ⟨r.inv, r.failed.trans f1, r.conn.trans c1, r.cbOpen.trans b1, fun j hj => mono1 j (r.secMono j hj), ?_⟩
+    intro k hk hsc
+    rcases List.mem_cons.mp hk with rfl | hk'
+    · have h1 := r.secMono k hsc
+      rw [sc1] at h1
+      by_cases hf : anyFailed s (secOf C k).lines = true
+      · rw [if_pos hf] at h1
+        have hklt : k < s.secConn.length := by rw [h.sz.secConn]; exact w.sec_lt n hn k ha
+        rw [gb_set_self _ _ _ hklt] at h1; exact absurd h1 (by simp)
+      · exact (anyFailed_false_iff C s k).mp (by simpa using hf)
+    · exact (nf_eq k).mp (r.clear k hk' hsc)
+
+/-- **the sensor check** keeps the invariant and leaves every in-service section of the network free of failed lines,
+whatever the controller can reach -/
+theorem Inv.checkSens {C : Cfg} {s : St} (w : WF C) (h : Inv C s) (n : Nat) (hn : n < C.nets.length) (cm : Comm) :
+    Inv C (checkSensors C s n cm) ∧ AllClear C (checkSensors C s n cm) n := by
+  rw [checkSensors_eq]
+  have fa := flagAllG w n hn (flagStepA C n cm) (fun s' k hs' hk => flagStepA_spec w n hn cm s' hs' k hk)
+    ((netOf C n).secs.filter (fun k => gb s.secConn k)) s h (fun k hk => (List.mem_filter.mp hk).1)
+  have hA : AllClear C (((netOf C n).secs.filter (fun k => gb s.secConn k)).foldl (flagStepA C n cm) s) n := by
+    intro k hk hsc l hl
+    rw [fa.failed]
+    have hs := fa.secMono k hsc
+    exact fa.clear k (List.mem_filter.mpr ⟨hk, hs⟩) hsc l hl
+  obtain ⟨i2, a2, _, _⟩ := recoAll w n hn ((netOf C n).secs.filter (fun k => !gb s.secConn k)) _ fa.inv hA
+    (fun k hk => (List.mem_filter.mp hk).1)
+  exact ⟨i2, a2⟩
+
+/-- the shared tail of every control loop, for any line / sensor check with the right specification -/
+theorem Inv.loopCoreG {C : Cfg} (w : WF C) (n : Nat) (hn : n < C.nets.length) (s1 : St) (h1 : Inv C s1) (chk : St → St)
+    (hchk : ∀ s2, Inv C s2 → Inv C (chk s2) ∧ AllClear C (chk s2) n) (g : St → St)
+    (hg : ∀ a, (g a).conn = a.conn ∧ (g a).failed = a.failed ∧ (g a).cbOpen = a.cbOpen ∧ (g a).secConn = a.secConn ∧
+      (g a).failedSecs = a.failedSecs ∧ (g a).check.length = a.check.length) :
+    Inv C (checkBreakerManually C
+      (if gb (if gb s1.cbOpen (C.nets.getD n default).cb && decide (gr s1.timer n ≤ 0) then { s1 with check := s1.check.set n true } else s1).check n
+       then g (chk (if gb s1.cbOpen (C.nets.getD n default).cb && decide (gr s1.timer n ≤ 0) then { s1 with check := s1.check.set n true } else s1))
+       else (if gb s1.cbOpen (C.nets.getD n default).cb && decide (gr s1.timer n ≤ 0) then { s1 with check := s1.check.set n true } else s1)) n) := by
+  set s2 : St := (if gb s1.cbOpen (C.nets.getD n default).cb && decide (gr s1.timer n ≤ 0) then { s1 with check := s1.check.set n true } else s1) with hs2
+  have h2 : Inv C s2 := by
+    rw [hs2]; split_ifs
+    · exact h1.congr rfl rfl rfl rfl rfl (by simp)
+    · exact h1
+  have hcb2 : s2.cbOpen = s1.cbOpen := by rw [hs2]; split_ifs <;> rfl
+  have ht2 : s2.timer = s1.timer := by rw [hs2]; split_ifs <;> rfl
+  by_cases hck : gb s2.check n = true
+  · rw [if_pos hck]
+    obtain ⟨i3, a3⟩ := hchk s2 h2
+    obtain ⟨g1, g2, g3, g4, g5, g6⟩ := hg (chk s2)
+    exact (i3.congr g1 g2 g3 g4 g5 g6).checkBreaker w n hn (fun _ _ => a3.congr g4 g2)
+  · rw [if_neg hck]
+    refine h2.checkBreaker w n hn ?_
+    intro hopen htimer
+    exfalso; apply hck
+    have hcond : (gb s1.cbOpen (C.nets.getD n default).cb && decide (gr s1.timer n ≤ 0)) = true := by
+      rw [hcb2] at hopen; rw [ht2] at htimer
+      simp only [Bool.and_eq_true, decide_eq_true_eq]
+      exact ⟨hopen, htimer⟩
+    rw [hs2, if_pos hcond]
+    show gb (s1.check.set n true) n = true
+    exact gb_set_self _ _ _ (by rw [h1.sz.check]; exact hn)
+
+theorem Inv.distLoopA {C : Cfg} {s : St} (w : WF C) (h : Inv C s) (n : Nat) (hn : n < C.nets.length) (dt : ℚ) (cm : Comm) :
+    Inv C (distLoopA C s n dt cm) := by
+  unfold Relsad.Control.distLoopA
+  simp only []
+  have h1 : Inv C { s with timer := s.timer.set n (tick (gr s.timer n) dt) } := h.congr rfl rfl rfl rfl rfl rfl
+  set s1 : St := { s with timer := s.timer.set n (tick (gr s.timer n) dt) } with hs1
+  have := Inv.loopCoreG w n hn s1 h1 (fun x => checkSensors C x n cm) (fun s2 h2 => h2.checkSens w n hn cm)
+    (fun a => let b := (C.nets.getD n default).children.foldl (fun (s : St) m =>
+        if gb s.cbOpen (C.nets.getD m default).cb then { s with pTimer := s.pTimer.set m (gr s.timer n) } else s) a
+      { b with check := b.check.set n false })
+    (by
+      intro a
+      simp only []
+      have key : ∀ (ms : List Nat) (x : St),
+          let r := ms.foldl (fun (s : St) m => if gb s.cbOpen (C.nets.getD m default).cb then { s with pTimer := s.pTimer.set m (gr s.timer n) } else s) x
+          r.conn = x.conn ∧ r.failed = x.failed ∧ r.cbOpen = x.cbOpen ∧ r.secConn = x.secConn ∧ r.failedSecs = x.failedSecs ∧ r.check = x.check := by
+        intro ms
+        induction ms with
+        | nil => intro x; exact ⟨rfl, rfl, rfl, rfl, rfl, rfl⟩
+        | cons m ms ih =>
+          intro x
+          simp only [List.foldl_cons]
+          split_ifs
+          · exact ih _
+          · exact ih _
+      obtain ⟨k1, k2, k3, k4, k5, k6⟩ := key (C.nets.getD n default).children a
+      refine ⟨k1, k2, k3, k4, k5, ?_⟩
+      show (List.set _ n false).length = a.check.length
+      rw [List.length_set, k6])
+  exact this
+
+theorem Inv.mgLoopA {C : Cfg} {s : St} (w : WF C) (h : Inv C s) (n : Nat) (hn : n < C.nets.length) (dt : ℚ) (cm : Comm) :
+    Inv C (mgLoopA C s n dt cm) := by
+  unfold Relsad.Control.mgLoopA
+  simp only []
+  set s1 : St := { s with timer := s.timer.set n (if gr s.pTimer n > tick (gr s.timer n) dt then gr s.pTimer n else tick (gr s.timer n) dt),
+                          pTimer := s.pTimer.set n (tick (gr s.pTimer n) dt) } with hs1
+  have h1 : Inv C s1 := h.congr rfl rfl rfl rfl rfl rfl
+  have := Inv.loopCoreG w n hn s1 h1 (fun x => checkSensors C x n cm) (fun s2 h2 => h2.checkSens w n hn cm)
+    (fun a => { a with check := a.check.set n false })
+    (by intro a; exact ⟨rfl, rfl, rfl, rfl, rfl, by simp⟩)
+  exact this
+
+theorem Inv.stepA {C : Cfg} {s : St} (w : WF C) (h : Inv C s) (dt : ℚ) (cm : Comm) : Inv C (stepA C s dt cm) := by
+  unfold Relsad.Control.stepA
+  simp only []
+  refine inv_foldl _ _ (fun n => n < C.nets.length) ?_ (fun s' n hn h' => h'.mgLoopA w n hn dt cm) _ ?_
+  · intro n hn; exact List.mem_range.mp (List.mem_filter.mp hn).1
+  refine inv_foldl _ _ (fun n => n < C.nets.length) ?_ (fun s' n hn h' => h'.distLoopA w n hn dt cm) _ ?_
+  · intro n hn; exact List.mem_range.mp (List.mem_filter.mp hn).1
+  exact inv_foldl _ _ (fun _ => True) (fun _ _ => trivial) (fun s' l _ h' => h'.lineUpdate l dt) _ h
+
 end Relsad.Control
